@@ -360,6 +360,15 @@ class MQTTProtocol(MQTTBaseProtocol):
     # State Machine API callbacks
     # ---------------------------
 
+    def doDisconnect(self, request):
+        '''
+        Send a DISCONNECT control packet.
+        '''
+        MQTTBaseProtocol.doDisconnect(self, request)
+        self._cancelAlarms()    # nothing is retransmitted after DISCONNECT
+
+    # --------------------------------------------------------------------------
+
     def doConnect(self, request):
         '''
         Send a CONNECT control packet.
@@ -667,6 +676,27 @@ class MQTTProtocol(MQTTBaseProtocol):
         '''
        
         # Cancel Alarms first
+        self._cancelAlarms()
+        # Pending SUBSCRIBE/UNSUBSCRIBE requests are never resumed on a later
+        # connection, so they fail with the connection in both session modes
+        for k in list(self.factory.windowSubscribe[self.addr]):
+            request = self.factory.windowSubscribe[self.addr][k]
+            del self.factory.windowSubscribe[self.addr][k]
+            request.deferred.errback(reason)
+        for k in list(self.factory.windowUnsubscribe[self.addr]):
+            request = self.factory.windowUnsubscribe[self.addr][k]
+            del self.factory.windowUnsubscribe[self.addr][k]
+            request.deferred.errback(reason)
+        # Then, invoke errbacks anyway if we do not persist state
+        if self._cleanStart:
+            self._purgeSession(reason)
+
+    # --------------------------------------------------------------------------
+
+    def _cancelAlarms(self):
+        '''
+        Cancel the retransmission timers of all pending requests.
+        '''
         for _, request in self.factory.windowSubscribe[self.addr].items():
             if request.alarm is not None:
                 request.alarm.cancel()
@@ -683,18 +713,5 @@ class MQTTProtocol(MQTTBaseProtocol):
             if request.alarm is not None:
                 request.alarm.cancel()
                 request.alarm = None
-        # Pending SUBSCRIBE/UNSUBSCRIBE requests are never resumed on a later
-        # connection, so they fail with the connection in both session modes
-        for k in list(self.factory.windowSubscribe[self.addr]):
-            request = self.factory.windowSubscribe[self.addr][k]
-            del self.factory.windowSubscribe[self.addr][k]
-            request.deferred.errback(reason)
-        for k in list(self.factory.windowUnsubscribe[self.addr]):
-            request = self.factory.windowUnsubscribe[self.addr][k]
-            del self.factory.windowUnsubscribe[self.addr][k]
-            request.deferred.errback(reason)
-        # Then, invoke errbacks anyway if we do not persist state
-        if self._cleanStart:
-            self._purgeSession(reason)
 
 __all__ = [ "MQTTProtocol" ]
